@@ -124,6 +124,17 @@ func (ch *dagChannel) reportSkip(keys []string) bool {
 	}
 	ch.Skipped = allSkipped
 
+	if allSkipped {
+		// a skipped node never reads the inputs it has already received (data from nodes that are
+		// not its control predecessors): close the streams so that their sources are released
+		for k, v := range ch.Values {
+			if sr, ok := v.(streamReader); ok {
+				sr.close()
+				delete(ch.Values, k)
+			}
+		}
+	}
+
 	return allSkipped
 }
 
